@@ -58,16 +58,16 @@ pub fn run(prop: &str, tier: Tier, seed: i64, replay: Option<&str>) -> i32 {
                     let (a, r) = sweeps::c18_sweep(tier);
                     ck.add_stage(a, r);
                 }
-                let (a, r) = sweeps::c13_sweep(tier, true);
+                let (a, r) = sweeps::c13_sweep(tier, M03 | M04 | M10);
                 ck.add_stage(a, r);
             }
             if prop == "C13" {
-                let (a, r) = sweeps::c13_sweep(tier, false);
+                let (a, r) = sweeps::c13_sweep(tier, 0);
                 ck.add_stage(a, r);
             }
-            if prop == "C10" {
-                // C10 for Cow (both forms) and SmallString too: every built value of the flavour sweep is re-built
-                let (a, r) = sweeps::c13_sweep(tier, true);
+            if matches!(prop, "C10" | "C04") {
+                // the value monitor for Cow (both forms) and SmallString too: every built value of the flavour sweep
+                let (a, r) = sweeps::c13_sweep(tier, monitors_for(prop));
                 ck.add_stage(a, r);
             }
             if matches!(prop, "C04" | "C06") {
@@ -76,6 +76,8 @@ pub fn run(prop: &str, tier: Tier, seed: i64, replay: Option<&str>) -> i32 {
         },
         "C03" => {
             let (a, r) = sweeps::c03_sweep(tier);
+            ck.add_stage(a, r);
+            let (a, r) = sweeps::c13_sweep(tier, M03);
             ck.add_stage(a, r);
             ck.lens_stage(plans_for(prop, tier));
             builder_stages(&mut ck, false);
@@ -390,8 +392,8 @@ pub fn replay_case(prop: &'static str, case: &Value) -> Option<Vec<Violation>> {
             let s = case["input"].as_str()?;
             StringEval { prop, mon: monitors_for(prop) }.eval(s, &mut acc);
         },
-        "c13-flavors" => sweeps::c13_flavor_case(&BuildSpec::from_json(&case["spec"])?, false, &mut acc),
-        "c10-flavors" => sweeps::c13_flavor_case(&BuildSpec::from_json(&case["spec"])?, true, &mut acc),
+        "c13-flavors" => sweeps::c13_flavor_case(&BuildSpec::from_json(&case["spec"])?, 0, &mut acc),
+        "flavor-monitors" | "c10-flavors" => sweeps::c13_flavor_case(&BuildSpec::from_json(&case["spec"])?, case["mon"].as_u64().unwrap_or(M10 as u64) as u32, &mut acc),
         "build" => {
             let spec = BuildSpec::from_json(&case["spec"])?;
             BuildEval { prop, mon: monitors_for(prop) }.eval(case["flavor"].as_str()?, &spec, &mut acc);
